@@ -93,8 +93,36 @@ func c04longStrings() []c04extra {
 	return l
 }
 
+// integer-keyed maps large enough, and with keys sharing enough leading digits, to send the
+// key sorter past its insertion-sort size and its quicksort depth budget (heapsort fallback):
+// under SortMapKeys every value must still come back under its own key
+func c04intKeyMaps() []c04extra {
+	var l []c04extra
+	for _, n := range []int{11, 12, 16, 40, 100} {
+		n := n
+		l = append(l, c04extra{fmt.Sprintf("int64-key-map(%d keys, 16 shared digits)", n), func() interface{} {
+			m := map[int64]string{}
+			for i := 0; i < n; i++ {
+				m[1700000000000000000+int64(i*7)] = fmt.Sprint("v", i)
+			}
+			return m
+		}, true})
+		l = append(l, c04extra{fmt.Sprintf("uint64-key-map-in-struct(%d keys, 17 shared digits)", n), func() interface{} {
+			m := map[uint64]int{}
+			for i := 0; i < n; i++ {
+				m[18000000000000000000+uint64(i*3)] = i
+			}
+			return struct {
+				A string
+				M map[uint64]int
+			}{"x", m}
+		}, true})
+	}
+	return l
+}
+
 func c04extras() []c04extra {
-	return append(c04longStrings(), []c04extra{
+	return append(append(c04longStrings(), c04intKeyMaps()...), []c04extra{
 		{"cyclic-pointer", func() interface{} { r := &gen.Rec{V: 1}; r.Next = r; return r }, false},
 		{"cyclic-map", func() interface{} { m := map[string]interface{}{}; m["self"] = m; return m }, false},
 		{"cyclic-slice", func() interface{} { s := make([]interface{}, 1); s[0] = s; return s }, false},
